@@ -2,6 +2,7 @@ package mon
 
 import (
 	"fmt"
+	"math/rand/v2"
 	"reflect"
 	"strings"
 
@@ -296,6 +297,37 @@ func runC13Smart(t *fw.T) {
 			w := wit()
 			w["got_tree"] = got
 			t.Violate("smart-tree", m.String()+"/"+diffKey(want, got), "smart-semicolon mode does not start a new statement at a line-leading '(' / '[' exactly as if ';' preceded it: "+gen.Describe(rd.Src), w)
+		}
+	}
+	// the same through the path plugins use: an expression interceptor that parses the prefix itself and lets the
+	// parser continue (ParseRemainingExpression). The smart cut belongs to the expression, not to who parses it.
+	if r.IntN(2) == 0 {
+		m := Mode{Smart: true}
+		coin := rand.New(rand.NewPCG(r.Uint64(), 13))
+		var prog2 *ast.Program
+		var errs []parser.ParserError
+		if t.Guard("smart parse with a re-entrant expression interceptor", wit, func() {
+			pb := newBuilder(m)
+			pb.UseExpressionInterceptor(func(p *parser.Parser, next func() ast.Expression) ast.Expression {
+				if coin.IntN(2) == 0 {
+					return p.ParseRemainingExpression(dispatchPrefix(p))
+				}
+				return next()
+			})
+			p := pb.Build(rd.Src)
+			prog2, _ = p.ParseProgram()
+			errs = p.Errors()
+		}) {
+			t.Count("smart_parses_through_a_reentrant_interceptor", 1)
+			if len(errs) > 0 {
+				w := wit()
+				w["errors"] = errs
+				t.Violate("smart-rejects", "re-entrant interceptor/"+errKey(errs[0].Message), "smart-semicolon mode rejects line-separated statements when an expression interceptor continues the expression itself: "+errs[0].Message+": "+gen.Describe(rd.Src), w)
+			} else if got := norm.S(prog2); got != want {
+				w := wit()
+				w["got_tree"] = got
+				t.Violate("smart-tree", "re-entrant interceptor/"+diffKey(want, got), "with an expression interceptor that continues the expression itself, smart-semicolon mode does not start a new statement at a line-leading '(' / '[': "+gen.Describe(rd.Src), w)
+			}
 		}
 	}
 	// default mode on the ';' text
